@@ -53,12 +53,12 @@ PLANS = {
                       per_beh=4, fs=[1, 3, 25, 60, 400], vts=["tiny", "edge", "ovf", "mixed", "mixed2", "big", "huge"],
                       embs=api.EMBEDDINGS_ALL, decode=True, tiny_ht=True)),
     "C19": dict(
-        quick=dict(mc=["core2"], gens=[dict(maxlog=2, num=60, depth=24, lean=True, focus="commit")],
+        quick=dict(mc=["core2"], gens=[dict(maxlog=2, num=60, depth=24, lean=True, focus="commit", templates="rollback")],
                    per_beh=2, fs=[1, 3, 25, 60], vts=["ovf", "mixed", "mixed2", "big", "edge"], embs=api.EMBEDDINGS_QUICK,
-                   decode=True, tiny_ht=True, alloc=True, cycles=dict(runs=6, n=5, fs=[25, 60, 200], vts=["ovf", "mixed", "big", "edge"])),
-        thorough=dict(mc=["core", "core2"], gens=[dict(maxlog=2, num=500, depth=32, lean=True, focus="commit")],
+                   decode=True, tiny_ht=True, alloc=True, occupancy=5, cycles=dict(runs=6, n=5, fs=[25, 60, 200], vts=["ovf", "mixed", "big", "edge"])),
+        thorough=dict(mc=["core", "core2"], gens=[dict(maxlog=2, num=500, depth=32, lean=True, focus="commit", templates="rollback")],
                       per_beh=4, fs=[1, 3, 25, 60, 400], vts=["ovf", "mixed", "mixed2", "big", "edge", "huge"],
-                      embs=api.EMBEDDINGS_ALL, decode=True, tiny_ht=True, alloc=True,
+                      embs=api.EMBEDDINGS_ALL, decode=True, tiny_ht=True, alloc=True, occupancy=9,
                       cycles=dict(runs=60, n=12, fs=[25, 60, 200, 400, 1200], vts=["ovf", "mixed", "mixed2", "big", "edge", "huge"]))),
     "C09": dict(
         quick=dict(mc=["core2"], gens=[dict(maxlog=1, num=40, depth=24, lean=True, focus="rollback"),
@@ -251,6 +251,23 @@ def run_plan(pid, tier, seed, extra_cov=None, t0=None):
             classes[run] = "ml2_rb1"
             script_by_run[run] = sc
             distinct.add(C.sha([beh, store, conc]))
+    if plan.get("occupancy"):
+        consts = consts_by_class.get("ml2_rb1") or api.gen_constants(maxlog=2)
+        consts_by_class.setdefault("ml2_rb1", consts)
+        tpls = api.occupancy_templates(sorted(consts["Keys"]))
+        for beh in (tpls if tier == "thorough" else rng.sample(tpls, plan["occupancy"])):
+            for rep in range(2 if tier == "thorough" else 1):
+                store, conc = api.concretise(beh, consts, rng, f=rng.choice([25, 40, 60]),
+                                             emb=rng.choice(["deep(12)", "deep(18)", "top", "spread(6)", "deep(6)"]),
+                                             vt=rng.choice(["tiny", "ovf", "mixed"]))
+                store["hashtable_buckets"] = rng.choice([1024, 4096, 64000])
+                run += 1
+                sc = api.make_script(run, beh, store, conc)
+                sc["decode"] = True
+                scripts[run] = sc
+                classes[run] = "ml2_rb1"
+                script_by_run[run] = sc
+                distinct.add(C.sha([beh, store, conc]))
     cycle_runs = []
     if plan.get("cycles"):
         # fill / overwrite-with-another-size-class / empty cycles (legal NomtApi behaviours; ApiTrace validates them too)
